@@ -296,3 +296,16 @@ PROPS["C14"] = dict(
         dict(name="TestVF_C14Seq", env=dict(VERIF_CASE_LIMIT=600), quick=dict(checks=48, shards=24, timeout=900), thorough=dict(checks=1200, shards=32, timeout=10000)),
     ],
 )
+
+PROPS["C17"] = dict(
+    level="exploration", engine="E3 session (real loopback tunnel)", bins=True,
+    technique="property-based testing (rapid): real tunnelled transfers attacked by generated foreign connections, connector faults and in-band junk; answered-only-to-the-exact-greeting, single-adoption, success and in-band-silence oracles",
+    level_text="Random search over real transfers whose server child listens on a loopback port, with 0-4 foreign connections (wrong greeting, right prefix / wrong id, wrong port text, prefix only, greeting plus extra bytes, "
+               "the right greeting from a second connection, greeting split over two writes, connect-and-silence, 1 MiB flood; each optionally followed by well-formed #fail: lines) at generated offsets relative to the genuine "
+               "connection, connector outcomes (immediate, refuses, late by 0.5-1.5 s, returns a closed connection), 0/1 relay hop, and in-band junk both ways after the handshake. Oracle: a connection that presented anything but the exact "
+               "greeting reads zero bytes and is closed; a second right greeting never receives protocol bytes; the transfer succeeds with identical files; once the tunnel is in use the client writes no protocol line in-band; when no tunnel "
+               "comes up the transfer completes in-band with the same destination.",
+    level_note="Winner selection among simultaneous right greetings is a race; arrival orders are sampled, not enumerated. Schedule perturbation of acceptOnTunnel / connectToTunnel is not part of this check.",
+    rule="non-trivial = at least one foreign connection, a connector fault or in-band junk; distinct by SHA-1 of the case JSON",
+    tests=[dict(name="TestVF_C17", env=dict(VERIF_CASE_LIMIT=300), quick=dict(checks=192, shards=32, timeout=900), thorough=dict(checks=4000, shards=32, timeout=10000))],
+)
